@@ -61,6 +61,8 @@ def search_exact(ctx, n):
     gs = []
     while len(gs) < n:
         g = compensated(ctx.rng) if len(gs) % 3 == 0 else M.rand_grammar(ctx.rng, nN=ctx.rng.randint(1, 4), nrules=ctx.rng.randint(2, 8))
+        if len(gs) % 3 == 1 and g["rules"]:
+            g["rules"].insert(ctx.rng.randrange(len(g["rules"]) + 1), list(ctx.rng.choice(g["rules"])))
         if M.dep_acyclic(g):
             gs.append(g)
     strs = [[list(x) for x in M.strings(g["nT"], 3)][:15] for g in gs]
@@ -130,6 +132,8 @@ def run(ctx):
     gs = []
     while len(gs) < n:
         g = compensated(ctx.rng) if len(gs) % 4 == 0 else M.rand_grammar(ctx.rng, nN=ctx.rng.randint(1, 4), nrules=ctx.rng.randint(2, 8))
+        if len(gs) % 3 == 1 and g["rules"]:   # a production listed more than once (every copy counts)
+            g["rules"].insert(ctx.rng.randrange(len(g["rules"]) + 1), list(ctx.rng.choice(g["rules"])))
         if M.dep_acyclic(g):
             gs.append(g)
     # reference: string weights and totals from the model
@@ -215,6 +219,7 @@ def run(ctx):
     ctx.sample({"grammar": gs[0], "strings": strs[0][:4], "Z": str(tot[(0, gs[0]["S"])])})
     search_exact(ctx, 30 if quick else 300)
     search_float(ctx, 25 if quick else 300)
+    stream_budget(ctx, 6 if quick else 40)
 
 
 def search_float(ctx, n):
@@ -275,12 +280,49 @@ def search_float(ctx, n):
                 viol(ctx, "locally_normalize:proportional", f"normalised grammar gives {v} to {x}; Kleene limit {ref} / total {Z}", {"kind": "norm", "what": "proportional", "sr": "float", "grammar": g, "xs": x, "observed": str(v), "expected": ref / Z})
 
 
+def stream_budget(ctx, n):
+    """locally_normalize with a small iteration budget (kwargs are forwarded to agenda): a geometric recursion at the bottom
+    uses up its budget, the components above it must still be evaluated"""
+    jobs, metas = [], []
+    for _ in range(n):
+        p = Fraction(ctx.rng.randint(1, 3), 8)
+        q = Fraction(ctx.rng.randint(2, 4), 8)
+        rules = [[M.fs(p), 2, [["T", 0], ["N", 2]]], [M.fs(q), 2, [["T", 1]]],          # B -> a B | b       (geometric)
+                 [M.fs(Fraction(1, 2)), 1, [["N", 2], ["N", 2]]], [M.fs(Fraction(1, 4)), 1, [["T", 0]]],   # A -> B B | a
+                 [M.fs(Fraction(1, 2)), 0, [["N", 1], ["T", 1]]], [M.fs(Fraction(1, 8)), 0, [["N", 2]]]]   # S -> A b | B
+        ctx.rng.shuffle(rules)
+        g = {"S": 0, "nT": 2, "rules": rules}
+        xs = [list(x) for x in M.strings(2, 3)][:15]
+        jobs.append({"g": g, "sr": "float", "queries": [{"op": "locally_normalize", "xs": xs, "kwargs": {"maxiter": ctx.rng.choice([40, 60, 100])}, "timeout": 60}]})
+        metas.append((g, xs))
+    res = run_jobs(jobs)
+    for (g, xs), job, r in zip(metas, jobs, res):
+        ctx.dist("small-iteration-budget")
+        q = r[0]
+        ctx.cov["oracle_cases"] += 1
+        kw = job["queries"][0]["kwargs"]
+        if "err" in q:
+            viol(ctx, f"locally_normalize:budget-error:{q['err'][:30]}", f"locally_normalize(cfg, **{kw}) raised {q['err']}", {"kind": "norm-error", "sr": "float", "grammar": g, "kwargs": kw, "error": q["err"]})
+            continue
+        V, conv = M.total_float(g, iters=3000, tol=1e-15)
+        m = M.mirror_float(g)
+        for x, enc in zip(xs, q["ok"]["values"]):
+            ref = m.lang(g["S"], x, fuel=400, tol=1e-14)
+            if ref is None:
+                continue
+            v = dec_val(enc)
+            if not isinstance(v, (float, Fraction, int)) or abs(float(v) - ref / V[g["S"]]) > 1e-4 * max(1.0, ref / V[g["S"]]):
+                viol(ctx, "locally_normalize:budget", f"locally_normalize(cfg, **{kw}) gives {v} to {x}; weight {ref} / total {V[g['S']]} (the recursion at the bottom exhausts the budget; the components above it were not evaluated)",
+                     {"kind": "norm", "what": "proportional", "sr": "float", "grammar": g, "kwargs": kw, "xs": x, "observed": str(v), "expected": ref / V[g["S"]]})
+                break
+
+
 def replay(obj):
     g, sr = obj["grammar"], obj["sr"]
     if obj.get("kind") == "eos":
         r = run_jobs([{"g": g, "sr": sr, "queries": [{"op": "add_eos_call", "xs": [obj["tokens"]]}]}])[0][0]
     else:
-        r = run_jobs([{"g": g, "sr": sr, "queries": [{"op": "locally_normalize", "xs": [obj.get("xs", [])], "late": obj.get("late", 0)}]}])[0][0]
+        r = run_jobs([{"g": g, "sr": sr, "queries": [{"op": "locally_normalize", "xs": [obj.get("xs", [])], "late": obj.get("late", 0), "kwargs": obj.get("kwargs", {})}]}])[0][0]
     print("grammar:", json.dumps(g))
     print("->", json.dumps(r)[:1500], "expected:", obj.get("expected"))
     return 0
